@@ -429,6 +429,7 @@ void run_idle_sweep(Judge& j, uint64_t nbase, int max_idle, const std::vector<in
                 Action pa; pa.kind = Action::publish; pa.at = 100 * MS; pa.qos = 1; pa.topic = "a"; pa.payload = "A"; base.script.push_back(pa);
                 Action pb; pb.kind = Action::publish; pb.at = 101 * MS; pb.qos = 2; pb.topic = "b"; pb.payload = "B"; base.script.push_back(pb);
                 Action kx; kx.kind = Action::net_kill; kx.at = 300 * MS; kx.ec = variant % 2; base.script.push_back(kx);
+                if (variant % 2) base.net.write_done_delay_min = base.net.write_done_delay_max = 30 * MS;   // writes take a while to complete
                 base.end = 12 * SEC;
             } else if (variant >= 10) {
                 // acknowledgements overtake slow write completions while inbound messages keep the sender busy
